@@ -48,23 +48,23 @@ def make_dir(nd, spec):
     return d
 
 
-def _bumps(rng, nf, nd, integer, npos):
+def _bumps(rng, nf, nd, integer, npos, many=False):
     """Return array (npos, nf, max(nd,1)) of multi-modal spectra with well separated peaks."""
     ndd = max(nd, 1)
     out = np.zeros((npos, nf, ndd))
     fi = np.arange(nf)[:, None]
     dj = np.arange(ndd)[None, :]
     for p in range(npos):
-        nb = int(rng.integers(1, 4))
+        nb = int(rng.integers(1, 4)) if not many else int(rng.integers(3, 8))
         amps = sorted(rng.uniform(20, 200, nb), reverse=True)
         for b in range(nb):
             i0 = rng.uniform(0.5, nf - 1.5) if nf > 2 else rng.uniform(0, nf - 1)
             j0 = rng.uniform(0, ndd)
-            wf = rng.uniform(0.7, max(0.8, nf / 4))
-            wd = rng.uniform(0.7, max(0.8, ndd / 5))
+            wf = rng.uniform(0.7, max(0.8, nf / 4)) if not many else rng.uniform(0.6, max(0.7, nf / 8))
+            wd = rng.uniform(0.7, max(0.8, ndd / 5)) if not many else rng.uniform(0.6, max(0.7, ndd / 10))
             dcirc = np.minimum(np.abs(dj - j0), ndd - np.abs(dj - j0)) if nd > 0 else 0 * dj
             # make the runner-up clearly smaller so argmax never flips on 1-ulp noise
-            amp = amps[b] * (0.55**b)
+            amp = amps[b] * (0.55**b if not many else 0.8**b)
             out[p] += amp * np.exp(-(((fi - i0) / wf) ** 2) - (dcirc / wd) ** 2)
         if integer:
             out[p] = np.round(out[p])
@@ -81,6 +81,8 @@ def make_values(recipe):
     ndd = max(nd, 1)
     if kind == "int_bumps":
         vals = _bumps(rng, nf, nd, True, npos)
+    elif kind == "int_multi":   # many separate wave systems: exercises the partition merging logic
+        vals = _bumps(rng, nf, nd, True, npos, many=True)
     elif kind == "peaked":
         vals = _bumps(rng, nf, nd, False, npos) * rng.uniform(1e-3, 1.0)
         vals += rng.uniform(0, 1e-6, vals.shape)
